@@ -243,6 +243,14 @@ pub fn valid_records(level: usize) -> Vec<TextRec> {
                 v.push(TextRec { owner: o.clone(), ttl: pick_ttl(), kind: Kind::Ds(k, a, d, h.to_string()) });
             }
         }
+        // digests of 1..66 bytes and of 96, 128, 255, 256, 1000 bytes (SHA-384 / SHA-512 and beyond)
+        for bytes in (1..=66usize).chain([96, 128, 255, 256, 1000]) {
+            if bytes > 66 || o == &owners[0] {
+                let h: String = (0..bytes).map(|i| format!("{:02x}", (i * 7 + 1) as u8)).collect();
+                let h = if bytes % 2 == 0 { h.to_ascii_uppercase() } else { h };
+                v.push(TextRec { owner: o.clone(), ttl: pick_ttl(), kind: Kind::Ds(4660, 13, 4, h) });
+            }
+        }
     }
     // SOA: two names x number vectors (includes two long names: the data exceeds 253 bytes while each name fits)
     let soa_names: Vec<String> = vec!["ns.a".into(), "admin.a.".into(), name_with_wire_len(200), name_with_wire_len(253), "x".into()];
